@@ -302,6 +302,22 @@ func (vc *VC) enterLoop(fr *Frame, h *ssa.BasicBlock, edges []edgeState, ord int
 	cur.pc = hpc
 	body := loopBody(h)
 	mods := vc.modSetBlocks(fr.fn, body)
+	if mods["L|*"] {
+		var base []string
+		for k := range vc.svSort {
+			if !strings.HasPrefix(k, "L|") && !strings.HasPrefix(k, "G_defer_") {
+				base = append(base, k)
+			}
+		}
+		for _, k := range base {
+			lk := "L|" + k
+			if _, ok := vc.svSort[lk]; !ok {
+				vc.svSort[lk] = vc.svSort[k]
+				vc.svInit[lk] = vc.svInit[k]
+			}
+			mods[lk] = true
+		}
+	}
 	mk := make([]string, 0, len(mods))
 	for k := range mods {
 		mk = append(mk, k)
